@@ -42,7 +42,7 @@ def _matrix() -> List[dict]:
 
 def plan(tier: str) -> dict:
     return {
-        "runs": 25000 if tier == "quick" else 300000,
+        "runs": 25000 if tier == "quick" else 1000000,
         "budget": 150 if tier == "quick" else 900,
         "cases": _matrix(),
         "chunk": 40,
